@@ -310,3 +310,50 @@ def shuffle_runs(items, rnd):
             if it is not None:
                 out.append(it)
     return out
+
+
+# ---- the parser's own structure (for tla/OpModel.tla): Seq = [Choice..], Choice = [Atom..], Atom = {k,a,xs,body,rep} ----
+def _atom(k, a="", xs=(), body=(), rep=False):
+    return {"k": k, "a": a, "xs": list(xs), "body": list(body), "rep": rep}
+
+
+def to_cst(e):
+    """the token structure render() produces for AST e, as internal/parser sees it (must mirror render exactly)"""
+    assert e["k"] == "seq"
+    return [_choice_of(x) for x in e["xs"]]
+
+
+def _choice_of(x):
+    """a top-level element of a sequence is one choice; an alt is rendered parenthesised, i.e. ONE atom"""
+    return [_atom_of(x)]
+
+
+def _atom_of(x):
+    k = x["k"]
+    if k in ("arg", "opt"):
+        return _atom(k, x["a"])
+    if k == "grp":
+        return _atom("grp", "", x["xs"])
+    if k == "end":
+        return _atom("end")
+    if k == "seq":
+        return _atom("par", body=[_choice_of(y) for y in x["xs"]])
+    if k == "alt":
+        return _atom("par", body=[[_atom_of(y) for y in x["xs"]]])
+    if k == "optional":
+        y = x["xs"][0]
+        if y["k"] == "seq":
+            body = [_choice_of(z) for z in y["xs"]]
+        elif y["k"] == "alt":
+            body = [[_atom_of(z) for z in y["xs"]]]
+        else:
+            body = [[_atom_of(y)]]
+        return _atom("sq", body=body)
+    if k == "rep":
+        y = x["xs"][0]
+        if y["k"] in ("end", "rep"):
+            return _atom("par", body=[[_atom_of(y)]], rep=True)
+        a = _atom_of(y)
+        a["rep"] = True
+        return a
+    raise ValueError(k)
